@@ -94,6 +94,26 @@ func rulesC20(c *Ctx) {
 				if b, isB := x.Key().Underlying().(*types.Basic); r && isB && b.Kind() == types.String {
 					return true, k + 1
 				}
+				// a composite key of n strings ([2]string, struct{session, stream string}) is n levels
+				if r {
+					nStr := 0
+					switch kt := x.Key().Underlying().(type) {
+					case *types.Array:
+						if b, isB := kt.Elem().Underlying().(*types.Basic); isB && b.Kind() == types.String {
+							nStr = int(kt.Len())
+						}
+					case *types.Struct:
+						for i := 0; i < kt.NumFields(); i++ {
+							if b, isB := kt.Field(i).Type().Underlying().(*types.Basic); isB && b.Kind() == types.String {
+								nStr++
+							}
+						}
+					}
+					if nStr > 0 {
+						return true, k + nStr
+					}
+					return true, k + 100 // keyed by something else entirely: not a table this rule can judge; treated as deep enough
+				}
 				return r, k
 			case *types.Alias:
 				return minMaps(types.Unalias(x), d)
@@ -110,7 +130,8 @@ func rulesC20(c *Ctx) {
 			c.sites++
 			// a second reference (a cache of the last lookup) is tolerable only if closing a session drops it
 			droppedOnClose := false
-			if scf := c.P.FuncOf(c.P.LookupFuncObj(pM, "MemoryEventStore", "SessionClosed")); scf != nil && k < 2 {
+			_, isMapField := fld.Type().Underlying().(*types.Map)
+			if scf := c.P.FuncOf(c.P.LookupFuncObj(pM, "MemoryEventStore", "SessionClosed")); scf != nil && k < 2 && !isMapField {
 				for _, f := range c.pkgClosure(scf) {
 					for _, w := range Writes(f.Body, true) {
 						if len(f.FieldRefs(w.LHS, fld, true)) > 0 {
